@@ -28,6 +28,61 @@ def plain(x):
   return x
 
 
+# ---- informational monitors (they decide nothing; they name the state a history dependence would travel through) ----
+AUDIT = {'on': False, 'events': []}
+
+
+def _audit(event, args):
+  if not AUDIT['on']:
+    return
+  try:
+    if event == 'open':
+      mode = args[1] if len(args) > 1 else None
+      if isinstance(mode, str) and any(c in mode for c in 'wax+'):
+        AUDIT['events'].append('open-for-write %s' % (args[0],))
+    elif event in ('os.putenv', 'os.unsetenv', 'subprocess.Popen', 'socket.connect', 'os.remove', 'os.rename', 'os.mkdir', 'os.system'):
+      AUDIT['events'].append('%s %s' % (event, str(args[0])[:80] if args else ''))
+  except Exception:
+    pass
+
+
+def snapshot_globals(repo_root):
+  """{'module.attr' or 'module.Class.attr': short hash} of the non-callable module-level and class-level state of
+  the repository's modules."""
+  import types
+  out = {}
+  for name, mod in list(sys.modules.items()):
+    f = getattr(mod, '__file__', None)
+    if not f or not f.startswith(repo_root):
+      continue
+    for k, v in list(vars(mod).items()):
+      if k.startswith('__') or isinstance(v, (types.ModuleType, types.FunctionType, types.BuiltinFunctionType)):
+        continue
+      if isinstance(v, type):
+        if getattr(v, '__module__', None) != name:
+          continue
+        for ck, cv in list(vars(v).items()):
+          if ck.startswith('__') or callable(cv) or isinstance(cv, (staticmethod, classmethod, property)):
+            continue
+          out['%s.%s.%s' % (name, k, ck)] = _h(cv)
+        continue
+      if callable(v):
+        continue
+      out['%s.%s' % (name, k)] = _h(v)
+  return out
+
+
+def _h(v):
+  try:
+    r = repr(v)
+  except Exception:
+    r = '<unreprable %s>' % type(v).__name__
+  if len(r) > 200000:
+    r = r[:200000]
+  r = re.sub(r' at 0x[0-9a-f]+', '', r)
+  return hashlib.sha256(r.encode('utf-8', 'replace')).hexdigest()[:12]
+
+
 def compile_entry(e, mods, reuse=1, check_rules=False):
   parse, universe = mods['parse'], mods['universe']
   os.environ['LOGICA_PARSER'] = e.get('parser', 'PY')
@@ -98,10 +153,23 @@ def main():
     from vf.native import build
     build.install(manifest['cpp_lib'])
   results = []
+  sys.addaudithook(_audit)
+  watch = bool(manifest.get('watch_state'))
   for e in manifest['entries']:
     for h in e.get('history', []):
       compile_entry(h, mods)
-    results.append(compile_entry(e, mods, reuse=e.get('reuse', 1), check_rules=e.get('reuse', 1) > 1))
+    before = snapshot_globals(manifest['repo']) if watch else None
+    AUDIT['events'] = []
+    AUDIT['on'] = True
+    try:
+      r = compile_entry(e, mods, reuse=e.get('reuse', 1), check_rules=e.get('reuse', 1) > 1)
+    finally:
+      AUDIT['on'] = False
+    if watch:
+      after = snapshot_globals(manifest['repo'])
+      r['globals_changed'] = sorted(k for k in set(before) | set(after) if before.get(k) != after.get(k))[:40]
+    r['side_effects'] = AUDIT['events'][:20]
+    results.append(r)
   json.dump(results, open(sys.argv[2], 'w'))
 
 
